@@ -33,6 +33,11 @@ var zzMocks = map[string]func() interface{}{
 REGISTRY
 }
 
+// typed shims for unexported interface methods (reflection cannot call them)
+var zzLower = map[string]func(m interface{}, seq int){
+LOWERSHIMS
+}
+
 var zzCounter int
 
 func zzValue(t reflect.Type) reflect.Value {
@@ -150,7 +155,7 @@ func (h *zzH) methods() []string {
 	var out []string
 	t := h.mock.Elem().Type()
 	for i := 0; i < t.NumField(); i++ {
-		if n := t.Field(i).Name; strings.HasSuffix(n, "Func") && t.Field(i).Type.Kind() == reflect.Func {
+		if n := t.Field(i).Name; strings.HasSuffix(n, "Func") && t.Field(i).Type.Kind() == reflect.Func && t.Field(i).PkgPath == "" {
 			out = append(out, strings.TrimSuffix(n, "Func"))
 		}
 	}
@@ -469,6 +474,33 @@ func TestZZReplay(t *testing.T) {
 			h.report("C06", "a call blocked inside the configured function blocks other goroutines using the mock")
 		}
 	}()
+	// C06: two goroutines, whole-mock reset against per-method resets (lock-order inversions)
+	if hasResets {
+		func() {
+			h := newH()
+			ok := zzWatch(10*time.Second, func() {
+				var wg sync.WaitGroup
+				wg.Add(2)
+				go func() {
+					defer wg.Done()
+					for i := 0; i < 30000; i++ {
+						h.mock.MethodByName("ResetCalls").Call(nil)
+					}
+				}()
+				go func() {
+					defer wg.Done()
+					ms := h.methods()
+					for i := 0; i < 30000; i++ {
+						h.mock.MethodByName("Reset" + ms[i%len(ms)] + "Calls").Call(nil)
+					}
+				}()
+				wg.Wait()
+			})
+			if !ok {
+				h.report("C06", "ResetCalls and a per-method reset running in two goroutines deadlock against each other")
+			}
+		}()
+	}
 	// ---- C05: concurrent use (run under -race) ----
 	func() {
 		h := newH()
@@ -511,6 +543,17 @@ func TestZZReplay(t *testing.T) {
 				prev = n
 			}
 		}()
+		if low, ok := zzLower[name]; ok {
+			// an unexported method of the interface, called concurrently with everything else
+			wg2.Add(1)
+			go func() {
+				defer wg2.Done()
+				defer func() { recover() }()
+				for i := 0; i < 300; i++ {
+					low(h.mock.Interface(), i)
+				}
+			}()
+		}
 		if hasResets && os.Getenv("ZZ_RACE_RESET") == "1" {
 			wg2.Add(1)
 			go func() {
@@ -615,7 +658,14 @@ func l3RunReplay(env *Env, st *L3State, m *L3Mock, method, prop, key string) (st
 		}
 		fmt.Fprintf(&reg, "\t%q: func() interface{} { return &%s%s{} },\n", x.Name, x.Name, l3Instantiation[x.Iface])
 	}
-	src := strings.Replace(strings.Replace(l3ReplayTest, "PKG", pkgName, 1), "REGISTRY", reg.String(), 1)
+	var low strings.Builder
+	for _, x := range st.Mocks {
+		if x.Cfg.OtherPkg != m.Cfg.OtherPkg || x.Iface != "CasePair" {
+			continue
+		}
+		fmt.Fprintf(&low, "\t%q: func(m interface{}, seq int) {\n\t\tmm := m.(*%s)\n\t\tif seq == 0 {\n\t\t\tmm.writeFunc = func(int) {}\n\t\t}\n\t\tmm.write(seq)\n\t},\n", x.Name, x.Name)
+	}
+	src := strings.Replace(strings.Replace(strings.Replace(l3ReplayTest, "PKG", pkgName, 1), "REGISTRY", reg.String(), 1), "LOWERSHIMS", low.String(), 1)
 	testFile := filepath.Join(pkgDir, "zz_replay_test.go")
 	env.mu.Lock()
 	os.WriteFile(testFile, []byte(src), 0o644)
